@@ -241,6 +241,15 @@ fn main() {
                 for s in ["2^63", "2^64", "9223372036854775807+1", "floor(9223372036854775808.0)", "9007199254740993*1", "(-9223372036854775807-1)/(-1)", "3037000500*3037000500", "2097152^3", "pow(2,0.5)", "10^23", "10²³", "1°", "1rad", "w(1)", "ilog(100,1.2)"] {
                     push(ev, &d, s);
                 }
+                // every one-argument function on integers at and beyond 2^53 that are next to squares, cubes and powers
+                for f in scverif::vocab::funcs(ev) {
+                    if f.arity == scverif::vocab::Arity::One && f.canon != "w" {
+                        for a in ["4611686018427387905", "4611686018427387904", "10000000000000001", "72057594037927937", "9007199254740993", "9223372036854775807", "1000000000000000000", "4503599627370497", "27000000000000000001", "(0-4611686018427387905)"] {
+                            push(ev, &d, &format!("{}({})", f.name, a));
+                            push(ev, &d, &format!("2*{}({})+1", f.name, a));
+                        }
+                    }
+                }
                 for (lev, s) in props::long::all(false).iter() {
                     if *lev == ev && s.len() % 5 == 0 {
                         push(ev, &d, s);
